@@ -126,7 +126,13 @@ pub fn run(ctx: &Ctx) -> i32 {
         modes: vec![BomMode::None, BomMode::Sniff],
         sinks: vec![Sink::Utf8, Sink::Utf16, Sink::Str, Sink::String],
         repls: vec![true],
-        cap_patterns: &|s| hist::cap_patterns(s, false),
+        cap_patterns: &|s| {
+            let mut v = hist::cap_patterns(s, false);
+            // a destination below the minimum (0 or 2 units), then the minimum: see verdict_c09
+            v.push(vec![crate::drive_dec::cap_under(0), s.min_cap()]);
+            v.push(vec![crate::drive_dec::cap_under(2), s.min_cap() + 1]);
+            v
+        },
         core_max_len: ctx.tier.pick(6, 8),
         triples: ctx.tier == fw::Tier::Thorough,
         bom_prefixes: true,
